@@ -345,8 +345,11 @@ def analyse_tu(eng, cfg):
         p = f.pretty or ''
         m = re.match(r'^(?:bool|auto) gch::(operator(?:==|!=|<=>|<=|>=|<|>))<', p)
         if m and "::'lambda'" in p:
-            nlambda += 1
-            eng.walk(f, [lam])
+            # judged only where the element's operator< is an opaque call (TR's is an inline
+            # function and int's is built in: their comparisons are not visible as calls)
+            if cfg.elem in ('NM', 'TM', 'MO', 'MOT', 'CO'):
+                nlambda += 1
+                eng.walk(f, [lam])
             continue
         if m and 'gch::small_vector<' in p[p.find('('):]:
             rule.op = m.group(1)
